@@ -197,6 +197,28 @@ Section Discipline.
     | [] => True
     | o :: ops' => op_ok g st o /\ hist_ok (ghost g st o) (step shadowed c st o) ops'
     end.
+  (* the discipline, decidable *)
+  Definition bounded_b (s : N) : bool := (s / ct_spe (c_ct c) + 3) * ct_spe (c_ct c) <? two64.
+  Definition op_ok_b (g : N) (st : state) (o : op) : bool :=
+    match o with
+    | Advance s => (st_cur st <=? s) && bounded_b s
+    | SetEnv _ | Start | Head _ _ _ | RefreshAtt _ => true
+    | Tick => (Z.of_N (st_cur st / ct_spe (c_ct c)) <=? st_tick st)%Z
+              || ((g <? st_cur st / ct_spe (c_ct c)) && (st_cur st =? (st_cur st / ct_spe (c_ct c)) * ct_spe (c_ct c)))
+    | Fire (JAtt s) _ | Fire (JProp s) _ | Fire (JEarly s) _ => s <=? st_cur st
+    | Fire (JPrep e) _ => (st_cur st / ct_spe (c_ct c) <? e) && (e * ct_spe (c_ct c) <? two64)
+    | Fire (JSync _) _ => true
+    | RefreshProp ep => ep =? st_cur st / ct_spe (c_ct c)
+    | SchedAtt _ _ | SchedProp _ _ | SchedSync _ _ | RefreshSync _ => false
+    end.
+
+
+  Fixpoint hist_ok_b (g : N) (st : state) (ops : list op) : bool :=
+    match ops with
+    | [] => true
+    | o :: ops' => op_ok_b g st o && hist_ok_b (ghost g st o) (step shadowed c st o) ops'
+    end.
+
 End Discipline.
 
 (* ------------------------------------------------------------------------------------------- *)
